@@ -44,7 +44,7 @@ class EcoreUtils(object):
 
     @staticmethod
     def get_root(obj):
-        if not obj:
+        if obj is None:
             return None
         previous = obj
         while previous.eContainer() is not None:
@@ -101,7 +101,7 @@ class PyEcoreValue(object):
     def _update_container(self, value, previous_value=None):
         if not self.is_cont:
             return
-        if value:
+        if value is not None:
             resource = value.eResource
             if resource and value in resource.contents:
                 resource.remove(value)
@@ -114,7 +114,7 @@ class PyEcoreValue(object):
                               .remove_or_unset(value)
             value._container = self.owner
             value._containment_feature = self.feature
-        if previous_value and previous_value is not value:
+        if previous_value is not None and previous_value is not value:
             previous_value._container = None
             previous_value._containment_feature = None
 
